@@ -34,6 +34,7 @@ type Harness struct {
 	NoReplay bool
 	NoReplayWhy string
 	NoReplayStubbed bool
+	Lazy     bool
 	Timeout  time.Duration
 	Quick    EntryOpts
 	Thorough EntryOpts
@@ -116,6 +117,8 @@ func ParseHarness(file string) (*Harness, error) {
 			h.Solver = fs[1]
 		case "noreplay-stubbed": // entries that hit a //verif:stub are not replayed natively
 			h.NoReplayStubbed = true
+		case "lazyfp":
+			h.Lazy = true
 		case "noreplay":
 			h.NoReplay = true
 			h.NoReplayWhy = strings.TrimSpace(strings.TrimPrefix(rest, "noreplay"))
